@@ -7,11 +7,11 @@ open U U.Props.C08
 
 theorem two64_eq : two64 = 2 ^ 64 := by decide
 
+/-- the generated unit table (emitted in the extractor's canonical order: a Go map literal is unordered) -/
 theorem unitTable_eq : Gen.size_unitToValues =
-    [([66], 1), ([107, 66], 1000), ([77, 66], 1000 ^ 2), ([71, 66], 1000 ^ 3), ([84, 66], 1000 ^ 4),
-     ([80, 66], 1000 ^ 5), ([69, 66], 1000 ^ 6), ([75, 105, 66], 1024), ([77, 105, 66], 1024 ^ 2),
-     ([71, 105, 66], 1024 ^ 3), ([84, 105, 66], 1024 ^ 4), ([80, 105, 66], 1024 ^ 5),
-     ([69, 105, 66], 1024 ^ 6)] := by decide
+    [([107, 66], 1000), ([66], 1), ([69, 105, 66], 1024 ^ 6), ([69, 66], 1000 ^ 6), ([71, 105, 66], 1024 ^ 3),
+     ([71, 66], 1000 ^ 3), ([75, 105, 66], 1024), ([77, 105, 66], 1024 ^ 2), ([77, 66], 1000 ^ 2),
+     ([80, 105, 66], 1024 ^ 5), ([80, 66], 1000 ^ 5), ([84, 105, 66], 1024 ^ 4), ([84, 66], 1000 ^ 4)] := by decide
 
 theorem lookupUnit_eq_mult (u : Bytes) : lookupUnit u = mult u := by
   unfold lookupUnit
